@@ -95,6 +95,11 @@ std::string fmt(const Event& e);                               // "tid kind name
 void dumpTrace(const char* prefix);                            // prints every event as "<prefix> …"
 int tid();                                                     // managed thread id, -1 if unmanaged
 uint64_t nowNs();                                              // virtual time
+// while on, atomic operations of the calling thread are not scheduling points (for observation hooks
+// that must stay atomic with the operation they report); do not block inside
+void noPreempt(bool on);
+long backstopsSoFar();                                         // timed waits >= backstopNs that ended by timeout in the current run
+long timeoutsSoFar();
 bool active();
 
 } // namespace dsched
